@@ -82,7 +82,13 @@ def allowed(m, segs, a, b):
 
 
 def may_end(m, segs, a):
-    return segs[a][1] == m["last"] or segs[a][1] in m["fine"]
+    if segs[a][1] == m["last"] or segs[a][1] in m["fine"]:
+        return True
+    # the end of a bracket of a volta group that closes the piece (the last pass need not be the last bracket)
+    for g in volta_groups(m):
+        if g[-1][1] == m["last"] and segs[a][1] in [e[1] for e in g]:
+            return True
+    return False
 
 
 def validate_path(m, path_ids):
